@@ -1,107 +1,104 @@
 (* Props/C06.v -- property C06: "Schema defaults are reproduced exactly, or rejected when
    the schema is added".  Only the property theorems; models in Algo/Defaults.v and
-   Algo/Value.v, proofs in Proofs/DefaultsProofs.v.
+   Algo/Value.v (mirroring /repo AFTER the fix: commits 9891d21, dc9ac49, 9117497, cd15928,
+   07af100, 31ec69c), proofs in Proofs/DefaultsProofs.v.
 
    Outcomes of the models: ROk = Ok/Some, RErr = Err(InvalidValue)/None, RPanic = a Rust
    panic (unwrap of a missing id, unreachable!()), RFuel = the MODEL ran out of fuel.
-   `output_value .. = RErr` is exactly the `None` on which to_stream() calls .unwrap()
-   (type_entry.rs:869,1189,1614; defaults.rs:358-367).
-
-   Full-strength statements that the faithful model REFUTES are kept as `_refuted`
-   theorems with their witnesses (each replayed on the real code by the check and
-   recorded in findings/C06.json); what is proved is stated with the recorded class
-   excluded, or on the named fragment (`_partial`). *)
+   `output_value .. = RErr` is exactly the `None` on which to_stream() calls .unwrap().
+   [re] is the regress engine (`Regex::new(p).map(|r| r.find(s).is_some()).unwrap_or(false)`):
+   every theorem holds for every such function. *)
 From Coq Require Import String ZArith NArith QArith List Bool.
 From Typify Require Import Base.Json IR.TypeIR Algo.Defaults Algo.Value Proofs.DefaultsProofs.
 Import ListNotations.
 Close Scope Q_scope.
 Open Scope N_scope.
 
-(* (1) No render panic after successful validation: for EVERY type space, fuel, type id and
-   JSON value, outside class F1 (the verdict depends on the String arm accepting a
-   non-string, finding C06-F1). *)
-Theorem C06_validate_implies_output : forall T f t d k,
-  validate_value T f t d = ROk k -> ~ Known_F1 T f t d -> output_value T f t d <> RErr.
+(* (1) No render panic after successful validation: EVERY type space, fuel, type id, kind
+   (all enum taggings, flattened members, sets, maps ...) and JSON value.  No exclusion any more
+   (was: ~Known_F1, finding C06-F1 fixed by 9891d21). *)
+Theorem C06_validate_implies_output : forall re T f t d k,
+  validate_value re T f t d = ROk k -> output_value T f t d <> RErr.
 Proof. exact validate_implies_output. Qed.
 
-(* full statement (without the exclusion) is false: {"type":"string","default":5} *)
-Theorem C06_validate_implies_output_refuted :
-  exists T f t d k, validate_value T f t d = ROk k /\ output_value T f t d = RErr /\ Known_F1 T f t d.
-Proof. exact validate_implies_output_refuted. Qed.
-
-(* a unit-typed property with default null validates, then default_fn hits unreachable!() (C06-F4) *)
-Theorem C06_unit_default_render_refuted :
-  exists T f t d k, validate_value T f t d = ROk k /\ render_prop_default T f t d = RPanic.
-Proof. exact unit_default_render_refuted. Qed.
-
-(* (2) C06_default_typed : validate .. = ROk _ -> output .. = ROk e -> expr_typed T f e t = true
-   is REFUTED three ways (outside F1): *)
-Theorem C06_default_typed_tuple1_refuted :
-  exists T f t d k e, validate_value T f t d = ROk k /\ ~ Known_F1 T f t d /\
-                      output_value T f t d = ROk e /\ expr_typed T f e t = false /\ expr_any is_tuple1 e = true.
-Proof. exact default_typed_tuple1_refuted. Qed.
-
-Theorem C06_default_typed_int_range_refuted :
-  exists T f t d k e, validate_value T f t d = ROk k /\ ~ Known_F1 T f t d /\
-                      output_value T f t d = ROk e /\ expr_typed T f e t = false /\ expr_any is_int_oob e = true.
-Proof. exact default_typed_int_range_refuted. Qed.
-
-Theorem C06_default_typed_flatten_refuted :
-  exists T f t d k e, validate_value T f t d = ROk k /\ ~ Known_F1 T f t d /\
-                      output_value T f t d = ROk e /\ expr_typed T f e t = false /\ expr_any has_flit e = true.
-Proof. exact default_typed_flatten_refuted. Qed.
-
-(* (3) C06_default_exact : .. -> exists r, eval_expr T e = Some r /\ approx d r = true is REFUTED:
-   0 validates for a NonZero type and the rendered NonZeroU32::new(0).unwrap() denotes no value *)
-Theorem C06_default_exact_nonzero_refuted :
-  exists T f t d k e, validate_value T f t d = ROk k /\ output_value T f t d = ROk e /\
-                      expr_typed T f e t = true /\ eval_expr T e = None /\ expr_any is_nz_zero e = true.
-Proof. exact default_exact_nonzero_refuted. Qed.
-
-(* (4) C06_invalid_rejected, for the constraints the IR carries.
-   Newtype constraints are carried by the IR but ignored by validate_value (C06-F3): *)
-Theorem C06_invalid_rejected_newtype_refuted :
-  exists T f t d k name def inner c,
-    get_det T t = Some (DNewtype name def inner c) /\ constraint_ok c d = false /\ validate_value T f t d = ROk k.
-Proof. exact invalid_rejected_newtype_refuted. Qed.
-
-(* what IS rejected, for all spaces and values: a JSON value of the wrong shape for the kind
-   (bool, integers incl. non-integral numbers, floats, unit, vec/set/map/struct containers,
-   tuple arity, fixed-array length) *)
-Theorem C06_invalid_rejected_scalar : forall T f t det d,
-  get_det T t = Some det -> shape_mismatch det d = true -> validate_value T (S f) t d = RErr.
+(* (2) invalid defaults are rejected, for the constraints the IR carries *)
+(* wrong JSON shape for the kind: bool, integer (incl. non-integral), float, unit, vec/set/map/struct
+   containers, tuple arity, fixed-array length *)
+Theorem C06_invalid_rejected_scalar : forall re T f t det d,
+  get_det T t = Some det -> shape_mismatch det d = true -> validate_value re T (S f) t d = RErr.
 Proof. exact invalid_rejected_scalar. Qed.
 
-(* (2',3') typed and exact on the scalar kinds (bool, integers, floats, strings, unit), with the two
-   recorded classes excluded by hypothesis: validation with the strict String arm (F1) and an
-   integer literal that fits its Rust type and is non-zero for NonZero (F5, F6).
-   PARTIAL: the full statements quantify over every kind; Option/Vec/Tuple/Array/Box/Newtype/Struct/
-   enums are covered by the run-time model-vs-rustc / model-vs-serde agreement only (see notes). *)
-Theorem C06_default_typed_partial : forall T f t det d k,
-  get_det T t = Some det -> scalar_det det = true -> int_fits det d = true ->
-  validate_strict T (S f) t d = ROk k ->
-  exists e r, output_value T (S f) t d = ROk e /\ expr_typed T (S f) e t = true /\
-              eval_expr T e = Some r /\ approx d r = true.
-Proof. exact scalar_typed_exact. Qed.
+(* a non-string default at a String-typed position is rejected (was C06_validate_implies_output_refuted) *)
+Theorem C06_string_default_is_string : forall re T f t d k,
+  get_det T t = Some DString -> validate_value re T (S f) t d = ROk k -> exists s, d = JStr s.
+Proof. exact string_default_is_string. Qed.
 
-Theorem C06_default_exact_partial : forall T f t det d k,
-  get_det T t = Some det -> scalar_det det = true -> int_fits det d = true ->
-  validate_strict T (S f) t d = ROk k ->
+(* newtype constraints (allow list, deny list, max/min length in scalar values, pattern) are enforced
+   on defaults (was C06_invalid_rejected_newtype_refuted, C06-F3 fixed by 9117497) *)
+Theorem C06_newtype_default_checked : forall re T f t name def inner c d k,
+  get_det T t = Some (DNewtype name def inner c) ->
+  validate_value re T (S f) t d = ROk k -> constraint_ok re c d = true.
+Proof. exact newtype_default_checked. Qed.
+
+(* integer defaults fit the Rust integer type wherever they occur (nested, beside $ref), and are
+   non-zero for NonZero types (was C06_default_typed_int_range_refuted / C06_default_exact_nonzero_refuted,
+   C06-F5/F6 fixed by 07af100) *)
+Theorem C06_integer_default_fits : forall re T f t name d k,
+  get_det T t = Some (DInteger name) ->
+  validate_value re T (S f) t d = ROk k ->
+  integer_fits name d = true /\ exists z, d = JInt z.
+Proof. exact integer_default_fits. Qed.
+
+(* a unit-typed property with default null is Optional: default_fn's unreachable!() on Unit is never
+   reached (was C06_unit_default_render_refuted, C06-F4 fixed by cd15928) *)
+Theorem C06_unit_null_optional : has_default (Some DUnit) (Some JNull) = POptional.
+Proof. exact unit_null_optional. Qed.
+
+(* (3) C06_default_typed on the STRUCTURAL FRAGMENT: types built from bool / the twelve known integer
+   types / floats / string / unit by Option, Box, Vec, Set, fixed arrays, tuples of ANY arity (incl.
+   one: was C06_default_typed_tuple1_refuted, fixed by dc9ac49) and newtypes with any constraints:
+   a validated default renders to an expression rustc types at the target type.
+   PARTIAL w.r.t. the full statement (every kind): structs (incl. flattened members), maps, the four
+   enum taggings, natives and JsonValue are covered by the per-run model-vs-rustc agreement only. *)
+Theorem C06_default_typed_partial : forall re T g f t d k,
+  validate_value re T f t d = ROk k -> frag T f t = true ->
+  exists e, output_value T f t d = ROk e /\ expr_typed T g e t = true.
+Proof. exact frag_typed. Qed.
+
+(* (4) C06_default_exact on the scalar kinds: the rendered expression denotes a value that
+   serialises to the schema default.  PARTIAL: composite kinds by the per-run model-vs-serde agreement. *)
+Theorem C06_default_exact_partial : forall re T f t det d k,
+  get_det T t = Some det -> scalar_det det = true ->
+  validate_value re T (S f) t d = ROk k ->
   exists e r, output_value T (S f) t d = ROk e /\ eval_expr T e = Some r /\ approx d r = true.
-Proof.
-  intros T f t det d k H1 H2 H3 H4.
-  destruct (scalar_typed_exact T f t det d k H1 H2 H3 H4) as [e [r [A [_ [B C]]]]]. exists e, r. auto.
-Qed.
+Proof. exact scalar_exact. Qed.
 
-(* non-vacuity: the hypotheses are satisfiable *)
-Example C06_nonvacuous_validate :
-  validate_value Tw 3 6 (JArr [JInt 1; JInt 2]) = ROk KSpecific /\ ~ Known_F1 Tw 3 6 (JArr [JInt 1; JInt 2]).
-Proof. split; [vm_compute; reflexivity|]. unfold Known_F1. vm_compute. intro H. apply H. reflexivity. Qed.
+(* the former refutation witnesses, now regression examples of the repaired behaviour:
+   String x 5, Vec<u8> x [300], S3(maxLength 3) x "toolong", IEnum[1,2] x 7, NonZeroU32 x 0 are
+   rejected; (i64,) x [3] and W{k, #[flatten] extra} x {"k":1} render to typed expressions *)
+Theorem C06_regression_examples :
+  validate_value re0 Tw 3 1 (JInt 5) = RErr /\
+  validate_value re0 Tw 3 6 (JArr [JInt 300]) = RErr /\
+  validate_value re0 Tw 3 7 (JStr (u "toolong")) = RErr /\
+  validate_value re0 Tw 3 11 (JInt 7) = RErr /\
+  validate_value re0 Tw 3 8 (JInt 0) = RErr /\
+  (exists e, output_value Tw 3 3 (JArr [JInt 3]) = ROk e /\ expr_typed Tw 3 e 3 = true) /\
+  (exists e, output_value Tw 4 10 (JObj [(u "k", JInt 1)]) = ROk e /\ expr_typed Tw 4 e 10 = true).
+Proof. exact regression_examples. Qed.
 
-Example C06_nonvacuous_scalar :
-  get_det Tw 5 = Some (DInteger (u "u8")) /\ int_fits (DInteger (u "u8")) (JInt 255) = true /\
-  validate_strict Tw 1 5 (JInt 255) = ROk (KGeneric GU64).
+(* non-vacuity *)
+Example C06_nonvacuous_validate : validate_value re0 Tw 3 6 (JArr [JInt 1; JInt 2]) = ROk KSpecific.
+Proof. vm_compute. reflexivity. Qed.
+
+Example C06_nonvacuous_frag :
+  frag Tw 3 3 = true /\ frag Tw 3 6 = true /\ frag Tw 3 7 = true /\
+  validate_value re0 Tw 3 3 (JArr [JInt 3]) = ROk KSpecific.
 Proof. repeat split; vm_compute; reflexivity. Qed.
+
+Example C06_nonvacuous_newtype :
+  validate_value re0 Tw 3 7 (JStr (u "abc")) = ROk KSpecific /\
+  constraint_ok re0 (CString (Some 3) None None) (JStr (u "toolong")) = false.
+Proof. split; vm_compute; reflexivity. Qed.
 
 Example C06_nonvacuous_shape : shape_mismatch (DTuple [2; 2]) (JArr [JInt 1]) = true.
 Proof. reflexivity. Qed.
